@@ -74,7 +74,7 @@ Proof. exact P_C14.decimate_picks. Qed.
 Theorem C14_any_factor_range : forall (f : R) (v : list R) cnt y, v <> [] -> In y (interp_at f v cnt) -> amin v <= y <= amax v.
 Proof. exact P_C14.interp_at_range. Qed.
 Theorem C14_any_factor_length_duration_parity : forall even f n dt, 0 < dt -> fac_wf f ->
-  let n' := new_npts even (fac_val f) n in
+  let n' := new_npts even f n in
   (0 <= n')%Z /\ (even = true -> Z.even n' = true) /\
   Rabs (IZR n' * (dt / fac_val f) - IZR (Z.of_nat n) * dt) < 2 * Rmax dt (dt / fac_val f).
 Proof.
@@ -116,11 +116,24 @@ Theorem C14_b64_step_le_target_partial : forall dt tg, 0 < dt -> 0 < tg ->
   newdt_rnd rnd53 dt tg <= tg * (1 + / 1125899906842624).
 Proof. exact P_C14_fl.flx53_step_le_target. Qed.
 
+(** the number of samples requested from the oracle is exactly factor * npts whenever that is an integer (always when
+    refining or keeping the step; when m divides npts for decimation): the resampled grid then spans exactly the
+    record's period with step dt / factor, so no time warp; the even-trimming is a [firstn] afterwards *)
+Theorem C14_resample_count_exact : forall (v : list R) dt tg, 0 < dt -> 0 < tg ->
+  let k := factor_kind dt tg in let c := rs_count k (length v) in
+  (match k with FDec m => (Z.of_nat (length v) mod m = 0)%Z | _ => True end) ->
+  IZR c * (dt / fac_val k) = IZR (Z.of_nat (length v)) * dt.
+Proof. exact P_C14.C14_resample_count_exact. Qed.
+Theorem C14_resample_trims_after : forall (RS : list R -> nat -> list R) (v : list R) dt tg,
+  fst (resample_approx RS true v dt tg) =
+  firstn (Z.to_nat (new_npts_rs true (factor_kind dt tg) (length v))) (fst (resample_approx RS false v dt tg)).
+Proof. reflexivity. Qed.
+
 (** NOT proved (correspondence only):
     - "reproduces exactly any signal that is periodic over the record and band-limited below the new Nyquist frequency":
       scipy.signal.resample is an oracle here; the clause is measured on implementation outputs on every run (on-grid
-      sinusoid sums, enclosures proved by the [interval] tactic), and it only holds when new_npts = factor * npts exactly
-      (otherwise the implementation's output is time-warped: see the C14 report).
+      sinusoid sums, enclosures proved by the [interval] tactic) whenever factor * npts is an integer (otherwise no
+      periodic resampling onto the grid i * new_dt exists).
     - binary64 beyond the partial theorem above: the float chain is modelled bit-for-bit (lib/B64.v, [factor_b64]) and
       the bound is checked with slack 2^-50 on every implementation output. *)
 
